@@ -5,7 +5,7 @@ from .. import cfg, e1, flows, oracles
 from ..report import Result, MachineryError
 
 NEEDS = ("dev",)
-CONTACTS = [["one@example.org"], ["two@example.org", "three@example.org"]]
+CONTACTS = [["one@example.org"], ["two@example.org", "three@example.org"], []]  # the last edit removes every contact
 KEYTYPES = ["ecdsa-p256", "ecdsa-p384", "ed25519"]
 EAB_KEY = "c2VjcmV0LWtleS1mb3ItZXh0ZXJuYWwtYWNjb3VudC1iaW5kaW5nLTAxMjM0NTY3ODk"
 EVENTS_Q = ["renewA", "renewB", "contacts", "key", "both", "restart", "forgetA", "binding"]
@@ -38,11 +38,11 @@ def build_request(history, n_ca, n_kt):
     for ev in history:
         ci, ki, bi = state
         if ev == "contacts":
-            state = (1 - ci, ki, bi)
+            state = ((ci + 1) % len(CONTACTS), ki, bi)
         elif ev == "key":
             state = (ci, (ki + 1) % n_kt, bi)
         elif ev == "both":
-            state = (1 - ci, (ki + 1) % n_kt, bi)
+            state = ((ci + 1) % len(CONTACTS), (ki + 1) % n_kt, bi)
         elif ev == "binding":
             state = (ci, ki, (bi + 1) % 3)
         elif ev.startswith("forget"):
@@ -286,11 +286,11 @@ def run(ctx):
         for ev in h:
             ci, ki, bi = st
             if ev == "contacts":
-                st = (1 - ci, ki, bi)
+                st = ((ci + 1) % len(CONTACTS), ki, bi)
             elif ev == "key":
                 st = (ci, (ki + 1) % n_kt, bi)
             elif ev == "both":
-                st = (1 - ci, (ki + 1) % n_kt, bi)
+                st = ((ci + 1) % len(CONTACTS), (ki + 1) % n_kt, bi)
             elif ev == "binding":
                 st = (ci, ki, (bi + 1) % 3)
             elif ev.startswith("forget"):
